@@ -352,6 +352,9 @@ func checkReflect(w *World, r *Report) {
 			if why == "" {
 				why = guardedInCallers(w, fn, s, 0)
 			}
+			if why == "" {
+				why = guardedAsCallbackElement(fn, s)
+			}
 			if why != "" {
 				r.ok("R05.2", ssaName(fn), construct, pos, why, true)
 			} else {
@@ -1204,4 +1207,44 @@ func interpretKindPredicate(g *ssa.Function, k int64) (bool, bool) {
 		prev, blk = blk, next
 	}
 	return false, false
+}
+
+// guardedAsCallbackElement: the receiver is the parameter of a function literal handed, together
+// with a slice, to one of the slices.*Func helpers (ContainsFunc, IndexFunc, …): the parameter
+// is an element of that slice.  Elements of v.MapKeys() are valid Values (validity obligations
+// only).
+func guardedAsCallbackElement(fn *ssa.Function, s reflectSite) string {
+	parent := fn.Parent()
+	if parent == nil || len(s.legal) != len(allValidKinds) || s.onType {
+		return ""
+	}
+	p, ok := unspill(s.recv).(*ssa.Parameter)
+	if !ok || p.Parent() != fn {
+		return ""
+	}
+	out := ""
+	instrsOf(parent, func(in ssa.Instruction) {
+		c, ok := in.(*ssa.Call)
+		if !ok || out != "" {
+			return
+		}
+		f := calleeFunc(c)
+		if f == nil || f.Pkg() == nil || f.Pkg().Path() != "slices" || !strings.HasSuffix(f.Name(), "Func") || len(c.Call.Args) != 2 {
+			return
+		}
+		mc, ok := c.Call.Args[1].(*ssa.MakeClosure)
+		if !ok || mc.Fn != ssa.Value(fn) {
+			if fv, isFn := c.Call.Args[1].(*ssa.Function); !isFn || fv != fn {
+				return
+			}
+		}
+		src, ok := unspill(c.Call.Args[0]).(*ssa.Call)
+		if !ok {
+			return
+		}
+		if g := src.Call.StaticCallee(); g != nil && g.String() == "(reflect.Value).MapKeys" {
+			out = "parameter of a callback of slices." + f.Name() + " over MapKeys(): every element is a valid Value"
+		}
+	})
+	return out
 }
